@@ -24,7 +24,9 @@ AllOps  == {"PreInc", "PostInc", "PreDec", "PostDec", "Deref", "Arrow", "Eq", "N
             "PlusU", "PlusLeftU", "MinusU", "IndexU", "StdAdvance", "StdDistance", "StdNext", "StdPrev",
             "Write", "IndexWrite", "TraverseForward", "TraverseReverse", "Seat",
             "StdCopy", "StdCopyBackward", "StdReverseCopy", "StdFind", "StdCount", "StdEqual", "StdLowerBound",
-            "StdFill", "StdReverse", "StdSort", "ValueInit", "EqualM", "LessThanM"}
+            "StdFill", "StdReverse", "StdSort", "ValueInit", "EqualM", "LessThanM",
+            "PostIncDeref", "PostDecDeref", "DcAssign", "MultiPass", "StdRotate", "StdMinElement", "StdCopyWithin", "ToConst", "MixedCmp"}
 (* S->C: Seat is the replay's own set-up step (every via is used there), not an enumerated transition *)
-CallOps == AllOps \ {"Seat"}
+(* the mixed iterator/const_iterator expressions are bound by directed advisory scripts of the kinds that have a const twin *)
+CallOps == AllOps \ {"Seat", "ToConst", "MixedCmp"}
 =============================================================================
